@@ -334,6 +334,79 @@ func (s *semaSeqScenario) Exec(run func(threads ...func()) *verifsched.Exec) (ou
 	return out
 }
 
+// semaReleaseScenario: Held slots are taken first; then Releasers threads
+// call Release concurrently (more releases than holders: a double release or
+// a release after a failed Acquire).  Release never blocks, whatever the
+// surplus; afterwards exactly the full capacity can be acquired again.
+type semaReleaseScenario struct {
+	Cap       uint   `json:"cap"`
+	Held      int    `json:"held"`
+	Releasers int    `json:"releasers"`
+	Kind      string `json:"kind"`
+}
+
+func (s *semaReleaseScenario) Desc() any     { return s }
+func (s *semaReleaseScenario) Class() string { return fmt.Sprintf("sema-release-%d", s.Releasers) }
+
+func (s *semaReleaseScenario) Exec(run func(threads ...func()) *verifsched.Exec) (out e3.Outcome) {
+	sem := syncutil.NewChanSemaphore(s.Cap)
+	for i := 0; i < s.Held; i++ {
+		if err := sem.Acquire(context.Background()); err != nil {
+			out.Viols = append(out.Viols, e3.Viol{Kind: "acquire-error", What: err.Error()})
+
+			return out
+		}
+	}
+
+	var events []string
+	var threads []func()
+	for i := 0; i < s.Releasers; i++ {
+		threads = append(threads, func() {
+			verifsched.MustNotBlock(sem.Release)
+			events = append(events, fmt.Sprintf("r%d", i))
+		})
+	}
+
+	ex := run(threads...)
+	out.History = strings.Join(events, " ")
+	if ex.Deadlock {
+		out.Viols = append(out.Viols, e3.Viol{Kind: "release-blocked",
+			What: fmt.Sprintf("Release blocked forever with %d slots held and %d concurrent releases: %s", s.Held, s.Releasers, strings.Join(ex.Blocked, ", "))})
+
+		return out
+	}
+
+	if len(ex.Panics) > 0 || ex.Livelock {
+		return out
+	}
+
+	// Sequentially, after the run: the number of free slots is what it should be.
+	free := int(s.Cap) - max(0, s.Held-s.Releasers)
+	for i := 0; i < free; i++ {
+		// Outside a scheduled execution the shim panics instead of blocking,
+		// so an Acquire that would have to wait is caught, not waited for.
+		var err error
+		if pv, _ := runlib.Try(func() { err = sem.Acquire(context.Background()) }); pv != nil {
+			out.Viols = append(out.Viols, e3.Viol{Kind: "capacity-lost",
+				What: fmt.Sprintf("after the releases only %d of %d free slots can be acquired", i, free)})
+
+			return out
+		}
+
+		if err != nil {
+			out.Viols = append(out.Viols, e3.Viol{Kind: "acquire-error", What: err.Error()})
+		}
+	}
+
+	ctx, cancel := context.WithCancel(context.Background())
+	cancel()
+	if err := sem.Acquire(ctx); err == nil {
+		out.Viols = append(out.Viols, e3.Viol{Kind: "holders-exceed-capacity", What: "one more Acquire succeeded than there are free slots"})
+	}
+
+	return out
+}
+
 // ---- enumeration ----
 
 func progsUpTo(keys []string, m int) (ps [][]string) {
@@ -391,6 +464,8 @@ func build(desc json.RawMessage) e3.Scenario {
 		sc = &semaScenario{}
 	case "semaseq":
 		sc = &semaSeqScenario{}
+	case "semarel":
+		sc = &semaReleaseScenario{}
 	default:
 		runlib.EngineErrorf("unknown scenario kind %q", k.Kind)
 	}
@@ -449,6 +524,12 @@ func scenarios(c *runlib.Ctx) (all []e3.Scenario, lims []e3.Limits) {
 	for capn := uint(0); capn <= 2; capn++ {
 		for pre := 0; pre <= 2; pre++ {
 			add(&semaSeqScenario{Kind: "semaseq", Cap: capn, PreRelease: pre}, full)
+		}
+
+		for held := 0; held <= int(capn); held++ {
+			for rel := 2; rel <= 3; rel++ {
+				add(&semaReleaseScenario{Kind: "semarel", Cap: capn, Held: held, Releasers: rel}, full)
+			}
 		}
 
 		for _, rounds := range [][]int{{1, 1}, {2, 1}, {2, 2}, {1, 1, 1}, {2, 1, 1}} {
